@@ -54,7 +54,14 @@ def case_imtlg(sp, m):
     if m <= 2:
         # for one or two independent rows v = pinv(G) d is entrywise positive, so the normalisation is always defined: no exception
         return [Ob("imtlg_weights_sum_to_one_and_equal_projections", good, cex)]
-    return [Ob("imtlg_weights_sum_to_one_and_equal_projections", z3.Or(good, zero_branch), cex)]
+    # m = 3: v = G^-1 d may sum to (relatively) nothing; only then is the zero vector acceptable: |sum v| <= 1e-12 |v|_1
+    det = torch.linalg._det(G)
+    adj = torch.linalg._adj(G)
+    v = [rsum(adj[i][j] * nrm[j] for j in range(m)) / det for i in range(m)]
+    vs = rsum(v)
+    l1 = rsum(x.abs() for x in v)
+    undefined = (vs.abs() <= R(Fraction(1, 10 ** 12)) * l1).z()
+    return [Ob("imtlg_weights_sum_to_one_and_equal_projections", z3.Or(good, z3.And(zero_branch, undefined)), cex)]
 
 
 def case_config(sp, m, n, pref):
